@@ -932,6 +932,10 @@ impl<'g> Cx<'g> {
         let f = match v.iter().find(|f| f.ns == self.ns) {
             Some(f) => f,
             None if v.len() == 1 => &v[0],
+            // an external-interface builtin (`RustSem.encrypt_in_place` …) that is ALSO translated from the source (group
+            // NcCrypto translates renetcode/src/crypto.rs): callers in other files keep calling the builtin; the two are
+            // proved equal in Lean (Props/SrcTieNcCrypto.lean)
+            None if v.iter().filter(|f| f.group.is_empty()).count() == 1 => v.iter().find(|f| f.group.is_empty()).unwrap(),
             None => return self.bail(span, format!("call of `{}` is ambiguous between files", name)),
         };
         if f.order >= self.order {
